@@ -180,6 +180,13 @@ func regression(class string, seed int64) []scenario {
 		add(sc)
 		sc.Mode, sc.ReadBuf = "tcp", 4096
 		add(sc)
+	case "backlog-serial", "backlog-tcp":
+		sc := base(class[len("backlog-"):], true, 512)
+		sc.LateReaderMS = 400
+		for i := 0; i < 4300; i++ {
+			sc.A = append(sc.A, arq(2))
+		}
+		add(sc)
 	case "listen-serial", "listen-tcp":
 		sc := base(class[len("listen-"):], false, 16)
 		sc.A = []item{arq(100), line("PTT TRUE"), arq(5)}
